@@ -188,11 +188,12 @@ def mutate_result(rng, r):
         r.aux_operators_evaluated = [1.5]
         return "aux set"
     if k == "eigenstate":
-        if isinstance(r.eigenstate, QuasiDistribution):
-            r.eigenstate[rng.randrange(8)] = rng.choice([0.125, 0.5])
+        if isinstance(r.eigenstate, QuasiDistribution) and len(r.eigenstate) > 0:
+            # an outcome within the measured width (item assignment does not widen a QuasiDistribution)
+            r.eigenstate[rng.randrange(2 ** min(3, len(next(iter(r.eigenstate.binary_probabilities())))))] = rng.choice([0.125, 0.5])
             r.eigenstate.shots = rng.choice([None, 7, 512])
             return "eigenstate item and shots changed in place"
-        r.eigenstate = QuasiDistribution({1: 1.0}, shots=3)
+        r.eigenstate = QuasiDistribution({"001": 1.0}, shots=3)
         return "eigenstate set"
     if k == "generations":
         r.generations = rng.randint(0, 50)
